@@ -303,4 +303,38 @@ Definition rot_chain_step (dim : Z) (acc : res (list (list T))) (f : T * list T)
 Definition rot_chain (dim : Z) (fs : list (T * list T)) : res (list (list T)) :=
   fold_left (rot_chain_step dim) fs (Ok (midentity (Z.to_nat dim))).
 
+(** ** The library's own observers of "determinant one" and of the angle: Matrix::Determinant() and Matrix::Trace().
+
+    Trace(): rows != columns exits; tr = 0.0; tr += components[i][i].
+    Sub_Matrix(0, j): a copy with Delete_Row(0) and Delete_Column(j) (components[i].erase(begin + j)).
+    Determinant(): not Square() exits; rows == 1: components[0][0]; rows == 2: c00 * c11 - c01 * c10; otherwise
+      factors[j] = ((j % 2 == 0) ? +1.0 : -1.0) * components[0][j];  det = 0.0;  det += factors[j] * Sub_Matrix(0, j).Determinant()
+    (Laplace expansion along the first row; the recursion depth is the number of rows: [fuel]). *)
+Definition mentry (m : list (list T)) (i j : nat) : T := nth0 Ops (nth i m []) j.
+Definition mtrace (m : list (list T)) : res T :=
+  if Nat.eqb (mrowsn m) (mcolsn m)
+  then Ok (fold_left (fun tr i => tr + mentry m i i) (seq 0 (mrowsn m)) zero) else Exit.
+Definition ldel {A} (j : nat) (l : list A) : list A := firstn j l ++ skipn (S j) l.
+Definition msub0 (j : nat) (m : list (list T)) : list (list T) := map (ldel j) (tl m).
+Definition lap_sign (j : nat) : T := if Nat.even j then one else - one.
+Fixpoint mdet_fuel (fuel : nat) (m : list (list T)) : res T :=
+  if negb (Nat.eqb (mrowsn m) (mcolsn m)) then Exit
+  else if Nat.eqb (mrowsn m) 1 then Ok (mentry m 0 0)
+  else if Nat.eqb (mrowsn m) 2 then Ok (mentry m 0 0 * mentry m 1 1 - mentry m 0 1 * mentry m 1 0)
+  else
+    match fuel with
+    | O => Fuel
+    | S f =>
+        fold_left (fun acc j => rbind acc (fun det => rbind (mdet_fuel f (msub0 j m)) (fun d =>
+                     Ok (det + (lap_sign j * mentry m 0 j) * d))))
+                  (seq 0 (mcolsn m)) (Ok zero)
+    end.
+Definition mdet (m : list (list T)) : res T := mdet_fuel (S (mrowsn m)) m.
+(** Determinant() and Trace() of the product of a chain of rotations (the harness asks the live product object both questions) *)
+Definition rot_chain_det_trace (dim : Z) (fs : list (T * list T)) : res (T * T) :=
+  rbind (rot_chain dim fs) (fun P => rbind (mdet P) (fun d => rbind (mtrace P) (fun t => Ok (d, t)))).
+(** ... and of one Rotation_Matrix(alpha, dim, axis) *)
+Definition rotation_det_trace (alpha : T) (dim : Z) (axis : list T) : res (T * T) :=
+  rbind (rotation_matrix alpha dim axis) (fun Rm => rbind (mdet Rm) (fun d => rbind (mtrace Rm) (fun t => Ok (d, t)))).
+
 End C16.
